@@ -241,6 +241,30 @@ def explore_names(ctx, names, prop):
             if got != ('ok', want):
                 ctx.cex('text line "{}" gives {} but the encoder gives {}'.format(line, got[1].hex() if got[0] == 'ok' else got[1], want.hex()),
                         inp, got[1].hex() if got[0] == 'ok' else got[1], want.hex(), {'kind': 'text-mismatch', 'name': name})
+            # the same line with every register operand written as a CONSTANT that names it (`R0 = a1`): resolve_register_aliases
+            # rebuilds the item, and every other operand (immediate, aq / rl, fence sets, CSR number) must survive that
+            kinds = isa.SPEC_ALL[name]
+            regpos = [j for j, kd in enumerate(kinds) if isinstance(kd, str) and j < len(ops)]
+            if regpos and got == ('ok', want) and (k // step) % 2 == 0:
+                defs, aops = [], list(ops)
+                for j in regpos:
+                    if isa.regnum(ops[j]) is None:
+                        defs = None
+                        break
+                    defs.append('AL{} = {}'.format(j, ops[j]))
+                    aops[j] = 'AL{}'.format(j)
+                if defs:
+                    asrc = '\n'.join(defs) + '\n' + text_line(name, aops, aq, rl) + '\n'
+                    ctx.evaluations += 1
+                    ctx.count('text-lines-aliased')
+                    try:
+                        gb = ('ok', bytes(asm.assemble(asrc)))
+                    except Exception as e:
+                        gb = ('err', harness.exc_class(e))
+                    if gb != ('ok', want):
+                        ctx.cex('"{}" with its registers written as constant aliases gives {} but the plain line gives {}'.format(
+                            line, gb[1].hex() if gb[0] == 'ok' else gb[1], want.hex()), {'source': asrc},
+                            gb[1].hex() if gb[0] == 'ok' else gb[1], want.hex(), {'kind': 'text-alias-mismatch', 'name': name})
         else:
             if got[0] == 'ok':
                 # pseudo-instruction forms share mnemonics (jal x, jalr x, fence): only flag when the encoder form applies
